@@ -53,6 +53,7 @@ pub fn subject_cfg(rng: &mut Rng, tier: Tier) -> GenCfg {
         fillers: rng.range(0, 8) as usize,
         actions,
         file_pool: rng.range(1, 4) as usize,
+        file_base: rng.usize_below(14),
         leading_options: rng.chance(1, 4),
         misplaced_option: rng.chance(1, 6),
         allow_or: rng.chance(3, 4),
